@@ -189,6 +189,23 @@ CLAIMED["C15"] = dict(
     technique="Lean 4 proof of the preview side + differential oracle preview vs commit on the real code + correspondence of the preview model",
     design="§5 C15")
 
+CLAIMED["C17"] = dict(
+    text=("Lean theorems over every request, file system and fault position k (only hypothesis: the temporary name is "
+          "not an existing file): C17_error_no_fs_change (an error report means the file system is exactly as before — "
+          "no output created or altered, no temporary file left), C17_fault_reported (a failure of any reached step is "
+          "reported), C17_ok_writes_only_output (success changes exactly the designated output, which holds the "
+          "library's result), C17_source_untouched, C17_readers_change_nothing, C17_default_names, C17_cli_exit; "
+          "C17_pinned_counterexample (the pinned save protocol violated it). Model: one call = read, n library calls, "
+          "save protocol (temporary sibling, write, move into place, cleanup). Correspondence: every MCP tool and CLI "
+          "command x source state x path configuration x fault injected at the k-th internal call (every function and "
+          "method of the adeu modules, every open-for-write, write, os.replace; thorough: every k) — outcome, directory "
+          "delta and the shape of the fault-free i/o trace vs the model. Oracle on the real call: returns a string, "
+          "stdout empty, error => directory snapshot unchanged, success => exactly the documented output path changed and "
+          "its content equals the library's result for the same input, CLI exit status."),
+    note="faults are Python exceptions at call entry; adeu.server is imported with a FastMCP stub (mcp 2.x installed); transport not exercised.",
+    technique="Lean 4 proof over all fault positions of a step-level model of the front-ends + fault-injection correspondence (all k) + file-system snapshot oracle",
+    design="§5 C17")
+
 PENDING = {
 }
 
